@@ -2,9 +2,21 @@
 #include "vsym.h"
 using namespace vs;
 
+static bool g_tableInts = false; // quick tier, partner is a float: exact payloads come from a small table (no int->float solver work)
+static RCP<const Integer> tab_int(const std::string &name)
+{
+    static const long tab[] = {-2, -1, 0, 1, 3};
+    return integer(tab[verif_choice(name.c_str(), 5)]);
+}
 static RCP<const Number> operand(int k, const std::string &tag)
 {
     long n = verif_param("nmax", 6);
+    if (g_tableInts && k == K_INT)
+        return tab_int(nm(tag, "ti"));
+    if (g_tableInts && k == K_RAT)
+        return Rational::from_two_ints(*tab_int(nm(tag, "tn")), *integer(1 + (long)verif_choice(nm(tag, "td").c_str(), 3)));
+    if (g_tableInts && k == K_CPLX)
+        return Complex::from_two_nums(*Rational::from_two_ints(*tab_int(nm(tag, "tre")), *integer(1 + (long)verif_choice(nm(tag, "tgd").c_str(), 2))), *tab_int(nm(tag, "tim")));
     if (k == K_CPLX) { // Gaussian integers / halves
         RCP<const Integer> re = sym_integer(nm(tag, "re"), -n, n, true), im = sym_integer(nm(tag, "im"), -n, n, true);
         RCP<const Integer> d = integer(1 + (long)verif_choice(nm(tag, "gd").c_str(), 2));
@@ -75,6 +87,7 @@ static bool is_finite_num(const Number &n)
 extern "C" void harness_c06_number()
 {
     int ka = (int)verif_choice("ka", K_COUNT), kb = (int)verif_choice("kb", K_COUNT);
+    g_tableInts = verif_param("dbl_table", 0) && (ka == K_DBL || ka == K_CDBL || kb == K_DBL || kb == K_CDBL);
     RCP<const Number> a = operand(ka, "a"), b = operand(kb, "b");
     bool floatzero = (finite_float(*a) && a->is_zero() && is_exact(*b)) || (finite_float(*b) && b->is_zero() && is_exact(*a));
     Res s1 = tryop([&] { return a->add(*b); }), s2 = tryop([&] { return b->add(*a); });
@@ -132,6 +145,7 @@ extern "C" void harness_c06_number()
 extern "C" void harness_c06_api()
 {
     int ka = (int)verif_choice("ka", K_COUNT), kb = (int)verif_choice("kb", K_COUNT);
+    g_tableInts = verif_param("dbl_table", 0) && (ka == K_DBL || ka == K_CDBL || kb == K_DBL || kb == K_CDBL);
     // pairs of exact non-integers are the subject of C05 (and of harness_c06_number); here at least one operand is an
     // integer, a float, an infinity or nan
     verif_assume(!((ka == K_RAT || ka == K_CPLX) && (kb == K_RAT || kb == K_CPLX)));
